@@ -6,6 +6,7 @@
    span precedence (D15) and of pad_left with a negative count.  Theorems quantified over `fx` hold
    for both. *)
 From RichModel Require Import Prelude Cells Wrap SpecWrap.
+From RichProofs.bridge Require BridgeCells.   (* tie 1 (T2): rich/cells.py (chop_cells, set_cell_size, widths) regenerated *)
 From RichProofs Require Import CellsP WrapP WrapP2 WrapP3 WrapP4 WrapP5 WrapP6 WrapS3 WrapS6.
 
 Arguments plain {S}.
